@@ -39,7 +39,11 @@ var (
 func lockProbeArgs(mt reflect.Type, ctx context.Context, cand []xml.Token) []reflect.Value {
 	st := cand[0].(xml.StartElement)
 	var args []reflect.Value
-	for i := 1; i < mt.NumIn(); i++ { // 0 is the receiver
+	n := mt.NumIn()
+	if mt.IsVariadic() {
+		n-- // no variadic arguments
+	}
+	for i := 1; i < n; i++ { // 0 is the receiver
 		t := mt.In(i)
 		switch {
 		case t == tCtx:
@@ -80,10 +84,6 @@ func probeLock() (string, error) {
 	var rows []row
 	for m := 0; m < st.NumMethod(); m++ {
 		meth := st.Method(m)
-		if meth.Type.IsVariadic() {
-			rows = append(rows, row{meth.Name, false, true})
-			continue
-		}
 		r := row{name: meth.Name, held: true}
 		for _, cand := range cands {
 			for _, mode := range []string{"cancelled", "timeout"} {
